@@ -291,7 +291,7 @@ func genHCase(r *sim.Rng, tier string, idx int) *HCase {
 			if r.Bool() {
 				s = StreamRecipe{Kind: "refenc-alone", Seed: r.Uint64()}
 			} else {
-				w := genLZWCase(r, "quick", false, false)
+				w := genLZWCase(r, "src", false, false)
 				if w.W.Payload.Len() > 400 {
 					w.W.Payload = sim.GenPayload(r, 400)
 					w.W.Ops = []Op{{K: "w", N: w.W.Payload.Len()}, {K: "c"}}
